@@ -66,6 +66,10 @@ def run_case(case, rec):
         d = dict(kind="nonstatio", key=key, n=2 * b + 1, b=b, dim=dim, min_pts=[-1.0, 2.0][:dim],
                  max_pts=[1.0, 3.0][:dim], nb=4 * ((bb or 0) + 2) if dim == 2 else 2, bb=bb if dim == 2 else 1,
                  nt=3 * bt + 1, bt=bt, tmin=10.0, tmax=11.0, cartesian=cart)
+        if (key + bt + b + dim) % 3 == 1:
+            # the option given as a numpy boolean (what a numpy comparison returns) rather than the Python object
+            d["cartesian_np"] = True
+            rec.count("option_given_as_numpy_boolean_%s" % mode)
         if bb is None:
             d.update(nb=None, bb=None)
             rec.count("generators_without_border")
